@@ -6,7 +6,7 @@ mkdir -p .work
 out=.work/seeded_regression.txt; : > $out
 ls seeded | grep "${2:-.}" | xargs -P "${1:-5}" -I{} sh -c '
   d={}; p=${d%-*}
-  r=$(tools/run_seeded.sh $d $p quick 2>&1 | grep -E "^\[|PATCH FAILED" | tail -1)
+  r=$(VERIF_EXTRA_ROUNDS=${VERIF_EXTRA_ROUNDS:-3} tools/run_seeded.sh $d $p quick 2>&1 | grep -E "^\[|PATCH FAILED" | tail -1)
   case "$r" in
     *"violations=0 "*|*PATCH*|"") echo "NOT-CAUGHT $d $r" >> .work/seeded_regression.txt ;;
     *) echo "caught $d" >> .work/seeded_regression.txt ;;
